@@ -271,6 +271,7 @@ def _root_.IpaVerif.Serde.Ty.WF : Ty → Prop
   | .fp25519 => False
   | .share t => t.WF
   | .arr _ t => t.WF
+  | .pair a b => a.WF ∧ b.WF
 
 theorem lawful_codecOf (t : Ty) (h : t.WF) : Lawful (codecOf t) := by
   induction t with
@@ -280,5 +281,6 @@ theorem lawful_codecOf (t : Ty) (h : t.WF) : Lawful (codecOf t) := by
   | fp25519 => exact absurd h (by simp [Ty.WF])
   | share t ih => exact lawful_pair (ih h) (ih h)
   | arr n t ih => exact lawful_arr (ih h) n
+  | pair a b iha ihb => exact lawful_pair (iha h.1) (ihb h.2)
 
 end IpaVerif.C09
